@@ -186,6 +186,12 @@ pub fn items(tier: Tier) -> Vec<Item> {
             add("unit-placeholder", "Display", format!("Display: to_string = {:?} on a unit variant at {}", l, pos), en("Display", "", "", &place(&format!("#[strum(to_string = {:?})] X", l), pos)), false);
         }
     }
+    // the canonical name can also come from `serialize` (longest literal) when there is no to_string
+    for attr in ["serialize = \"a {x}\"", "serialize = \"s\", serialize = \"long {0}\"", "serialize = \"{name} long\", serialize = \"s\""] {
+        for pos in positions(th) {
+            add("unit-placeholder", "Display", format!("Display: {} on a unit variant at {}", attr, pos), en("Display", "", "", &place(&format!("#[strum({})] X", attr), pos)), false);
+        }
+    }
     add("unit-placeholder", "Display", "control: escaped braces on a unit variant".into(), en("Display", "", "", &place("#[strum(to_string = \"a {{x}}\")] X", 1)), true);
     add("unit-placeholder", "Display", "control: placeholder on a named variant".into(), en("Display", "", "", &place("#[strum(to_string = \"a {x}\")] X { x: u8 }", 1)), true);
     // R9 unknown serialize_all style
